@@ -29,6 +29,7 @@ CONTENTS = {
     "bad_enum": '===DOC===\nMETA:\n  TYPE::T\n  VERSION::"1"\n  STATUS::NOPE\nRPR:\n  STATUS::NOPE\n  NAME::x\n===END===\n',
     "casefold": '===DOC===\nMETA:\n  TYPE::T\n  VERSION::"1"\nRPR:\n  STATUS::active\n  NAME::x\n===END===\n',
     "unknown_field": '===DOC===\nMETA:\n  TYPE::T\n  VERSION::"1"\nRPR:\n  STATUS::ACTIVE\n  NAME::x\n  EXTRA::1\n===END===\n',
+    "meta_unknown": '===DOC===\nMETA:\n  TYPE::SESSION_LOG\n  VERSION::"1.0"\n  OWNER::"x"\nRPR:\n  STATUS::ACTIVE\n  NAME::x\n===END===\n',
     "unparseable": "===DOC===\nK::[1,2\n===END===\n",
     "tab": "===DOC===\n\tK::1\n===END===\n",
     "empty": "",
@@ -98,9 +99,11 @@ def _one(item):
                     problems.append("INVALID without a validation error")
                 if not res.get("schema_name") or not res.get("schema_version"):
                     problems.append("INVALID without schema_name/schema_version")
-            if st == "VALIDATED" and not diff_only and isinstance(res.get("canonical"), str) and not fix:
+            if st == "VALIDATED" and not diff_only and isinstance(res.get("canonical"), str):
+                # the text returned as VALIDATED (repaired or not) is valid under the same schema and profile
                 kw2 = dict(kw)
                 kw2["content"] = res["canonical"]
+                kw2["fix"] = False
                 r2 = asyncio.run(ValidateTool().execute(**kw2))
                 if r2.get("validation_status") != "VALIDATED":
                     problems.append(f"canonical text returned as VALIDATED re-validates as {r2.get('validation_status')}")
